@@ -23,7 +23,36 @@ def c18(ck):
                         seed=ck.seed, exhaustive=False, timeout=3000)
 
 
-PROPS = {"C18": c18}
+def c04(ck):
+    ck.rule = ("every program with at most N statement nodes over the statement alphabet {safe read, assign literal, assign copy, "
+               "increment, decrement, include with argument, for, capture, if} on 2 (3) reused names x 3 caller data maps x 2 partial "
+               "variants is one TLC behaviour of LiquidInterp and one replay record; non-trivial = contains a binding construct "
+               "and an output of a name; distinct by construction (TLC initial states)")
+    ck.assumptions = ["ASCII names and values", "partials compiled eagerly (C19 covers the other policies)",
+                      "outcome compared as output text or error-ness, not error message"]
+    if ck.tier == "quick":
+        ck.replay_stage("n3", "MC_C04", "MC_C04_quick.cfg")
+    else:
+        ck.replay_stage("n3", "MC_C04", "MC_C04_quick.cfg")
+        ck.replay_stage("n4", "MC_C04", "MC_C04_n4.cfg", tlc_workers=12, harness_workers=4, timeout=3400)
+        ck.replay_stage("n3x3names", "MC_C04", "MC_C04_3names.cfg", tlc_workers=12, timeout=3400)
+
+
+def c05(ck):
+    ck.rule = ("every (source kind, length 0..6, offset absent|0..8, limit absent|0..8, reversed, cols absent|1..4) for/tablerow "
+               "program whose body prints the item and every loop field, plus break/continue at every (i, j) of two nested loops "
+               "of lengths 1..3 (inner, outer-before, outer-after, inside capture); each is one TLC behaviour and one replay record; "
+               "all are non-trivial (every program runs a loop construct)")
+    ck.assumptions = ["offset/limit/cols are non-negative integer literals; objects have one key",
+                      "break/continue claimed for `for` only (tablerow has no interrupt handling, modelled as such)"]
+    if ck.tier == "quick":
+        ck.replay_stage("windows+nested", "MC_C05", "MC_C05_quick.cfg")
+    else:
+        ck.replay_stage("windows+nested", "MC_C05", "MC_C05_quick.cfg")
+        ck.replay_stage("bigger", "MC_C05", "MC_C05_big.cfg", tlc_workers=12, timeout=3400)
+
+
+PROPS = {"C04": c04, "C05": c05, "C18": c18}
 
 
 def replay_file(prop, path):
